@@ -2,12 +2,11 @@
    behind their uniform entry points, and polynomial evaluation (Model/Aux.v
    peval) used to feed function parameters (psihat, psihatPrime, ...) as
    coefficient lists.  ExtrOcamlBasic only; nat/positive/Z/Q stay Coq datatypes. *)
-From EoNV Require Import Prelude Vec Aux Rhs Attack.
+From EoNV Require Import Prelude Vec Aux Rhs.
 Require Extraction.
 Require Import ExtrOcamlBasic.
 
 (* the shared glue (ocaml/glue*.ml) mentions N and the err constructors *)
 Definition glue_types : result N := Err EoNError.
 
-Extraction "../ocaml/gen/rhs_model.ml" glue_types rhs_call loop_call peval Qred
-  attack_rate_discrete attack_rate_cts_time ebcm_discrete_rows.
+Extraction "../ocaml/gen/rhs_model.ml" glue_types rhs_call loop_call peval Qred.
